@@ -514,8 +514,38 @@ struct ArraysWorld : World {
 				size_t u = used(h);
 				size_t so = u ? (size_t) op.c % (u + 1) : 0, sl = u > so ? ((size_t) (op.c / 3) % (u - so + 1)) : 0;
 				struct CSlice { CArr a; uintptr_t off, len; } cs; cs.a.buf = 0; cs.off = so; cs.len = sl;
-				int rc; { Sut s; rc = mpt_array_clone(AR(cs.a), AR(H[h])); }
-				if (rc < 0) break;
+				// the slice either shares the buffer with the handle (clone) or takes it over (the handle gives it up): alone on a buffer the
+				// writer appends in place, moves its view to the front when room runs out, and only then gets a new buffer
+				bool takeover = ((op.b >> 12) & 1) == 0 && (op.c % 3) == 0 && H[h].buf;
+				std::vector<uint32_t> view0(m.begin() + so, m.begin() + so + sl);
+				if (takeover) { cs.a.buf = H[h].buf; H[h].buf = 0; M[h] = Model(); st.hit("probe:slice_takes_over_buffer"); }
+				else { int rc; { Sut s; rc = mpt_array_clone(AR(cs.a), AR(H[h])); } if (rc < 0) break; }
+				if (takeover) {
+					// several writes in a row, interleaved with a request for room (element size 0)
+					std::vector<uint32_t> want = view0; bool bad = false;
+					for (int round = 0; round < 4 && !bad; ++round) {
+						size_t nb = 1 + (size_t) (op.c >> round) % 4, bsz = 1 + (size_t) (op.c / (7 + round)) % 60;
+						if (round == 2) {
+							ssize_t q; { Sut s; q = mpt_slice_write(reinterpret_cast<slice *>(&cs), bsz, 0, 0); }
+							log.ev("SWRITE(own) %d room for blocks of %zu -> %zd", h, bsz, q);
+							if (q < 0) continue;
+						} else {
+							std::vector<uint32_t> vals = fresh(nb * bsz); Block src(nb * bsz, 0); for (size_t i = 0; i < vals.size(); ++i) src.p[i] = (uint8_t) vals[i];
+							ssize_t w; { Sut s(round == 1 ? failn : 0); w = mpt_slice_write(reinterpret_cast<slice *>(&cs), nb, src.p, bsz); if (round == 1) afired = g.fired; }
+							log.ev("SWRITE(own) %d view[%zu,+%zu) blocks=%zu x %zu -> %zd", h, (size_t) cs.off, (size_t) cs.len, nb, bsz, w);
+							if (w > (ssize_t) nb) fail("wrong-content", "slice write reports %zd of %zu blocks", w, nb);
+							if (w < 0) { if (!afired) fail("refused-valid", "slice write of %zu blocks of %zu bytes refused without allocation fault (%zd)", nb, bsz, w); continue; }
+							want.insert(want.end(), vals.begin(), vals.begin() + (size_t) w * bsz);
+						}
+						buffer *sb = cs.a.buf;
+						if (!sb || cs.off + cs.len > sb->_used || sb->_used > sb->_size) fail("state", "slice [%zu,+%zu) outside its buffer (used %zu size %zu)", (size_t) cs.off, (size_t) cs.len, sb ? (size_t) sb->_used : 0, sb ? (size_t) sb->_size : 0);
+						if (cs.len != want.size()) fail("wrong-content", "slice view is %zu bytes, %zu were written to it", (size_t) cs.len, want.size());
+						const uint8_t *base = (const uint8_t *) (sb + 1) + cs.off;
+						for (size_t i = 0; i < want.size(); ++i) if (base[i] != want[i]) fail("wrong-content", "slice view byte %zu of %zu is %02x, want %02x", i, want.size(), base[i], want[i]);
+					}
+					{ Sut s; mpt_array_clone(AR(cs.a), 0); }
+					break;
+				}
 				size_t nblk = 1 + (size_t) op.c % 5, bs = 1 + (size_t) (op.c / 11) % 40;
 				std::vector<uint32_t> vals = fresh(nblk * bs);
 				Block src(nblk * bs, 0); for (size_t i = 0; i < vals.size(); ++i) src.p[i] = (uint8_t) vals[i];
